@@ -3,6 +3,8 @@ minimised past disagreements."""
 
 CORPUS = {
     "C07": [
+        "cfg m=1 | T0: spawn 1; lock 0; unpark 1; join 1; unlock 0 | T1: lock 0; unlock 0",
+        "cfg l=1 | T0: spawn 1; wr 0; unpark 1; join 1; unwr 0 | T1: rd 0; unrd 0",
         # a failed try against a held lock must leave the lock held (same thread and another thread)
         "cfg l=1 | T0: wr 0; trywr 0; tryrd 0; trywr 0; unwr 0",
         "cfg l=1 | T0: rd 0; trywr 0; trywr 0; unrd 0; trywr 0; ifeq 1 v:1 1; unwr 0",
@@ -77,6 +79,13 @@ CORPUS = {
         "cfg x=2 | T0: spawn 1; st 0 1 rlx; st 1 1 rlx; join 1; fence sc | T1: fence sc; ld 1 rlx; ld 0 rlx",
     ],
     "C08": [
+        # unpark must wake only a thread that is blocked in park, and its token must survive blocking on
+        # something else (F5 / F6 / F18, repaired)
+        "cfg  | T0: spawn 1; join 1 | T1: unpark 0",
+        "cfg m=1 | T0: spawn 1; lock 0; unpark 1; join 1; unlock 0 | T1: lock 0; unlock 0",
+        "cfg m=1 | T0: spawn 1; unpark 1; lock 0; unlock 0; join 1 | T1: lock 0; unlock 0; park",
+        "cfg q=1 | T0: spawn 1; recv 0; join 1; droprx 0 | T1: unpark 0; send 0 1",
+        "cfg n=1 | T0: spawn 1; nwait 0; join 1 | T1: unpark 0; nnotify 0",
         # two notifiers, the second arrives while the first notification is still pending: the waiter must still
         # receive what the second published (T0 waits only after it has seen that T2 has notified)
         # (two self-notify + wait rounds: at least one of the waits is not the spurious return)
@@ -97,6 +106,13 @@ CORPUS = {
         "cfg m=1 c=1 v=1 | T0: spawn 1; spawn 2; lock 0; cwr 0 1; unlock 0; cvone 0; cvone 0; join 1; join 2 | T1: lock 0; crd 0; ifeq 1 v:0 1; cvwait 0 0; unlock 0 | T2: lock 0; crd 0; ifeq 1 v:0 1; cvwait 0 0; unlock 0",
     ],
     "C05": [
+        # unpark must wake only a thread that is blocked in park, and its token must survive blocking on
+        # something else (F5 / F6 / F18, repaired)
+        "cfg  | T0: spawn 1; join 1 | T1: unpark 0",
+        "cfg m=1 | T0: spawn 1; lock 0; unpark 1; join 1; unlock 0 | T1: lock 0; unlock 0",
+        "cfg m=1 | T0: spawn 1; unpark 1; lock 0; unlock 0; join 1 | T1: lock 0; unlock 0; park",
+        "cfg q=1 | T0: spawn 1; recv 0; join 1; droprx 0 | T1: unpark 0; send 0 1",
+        "cfg n=1 | T0: spawn 1; nwait 0; join 1 | T1: unpark 0; nnotify 0",
         # a park token must survive a release of an object the thread merely used earlier (F18a, repaired)
         "cfg l=1 | T0: spawn 1; unpark 1; rd 0; unrd 0; join 1 | T1: rd 0; unrd 0; park",
         "cfg l=1 | T0: spawn 1; unpark 1; rd 0; unrd 0; join 1 | T1: tryrd 0; unrd 0; park",
@@ -118,6 +134,8 @@ CORPUS = {
         "cfg x=1 | T0: spawn 1; st 0 1 rlx; st 0 2 rlx; join 1 | T1: fupd 0 addiflt:1:0 rlx rlx; ld 0 rlx",
     ],
     "C01": [
+        # strong_count must observe a concurrent drop (F10a, repaired)
+        "cfg  | T0: anew 0; aclone 0 1; spawn 1; acount 0; adrop 0; join 1 | T1: adrop 1",
         # a racing thread that is blocked at the backtrack point: all enabled threads must become alternatives
         "cfg q=1 x=1 | T0: spawn 1; spawn 2; recv 0; fadd 0 10 rlx; join 1; join 2; droprx 0 | T1: fadd 0 1 rlx | T2: send 0 1",
         "cfg m=1 x=1 | T0: spawn 1; spawn 2; lock 0; fadd 0 10 rlx; unlock 0; join 1; join 2 | T1: fadd 0 1 rlx | T2: lock 0; unlock 0",
